@@ -106,6 +106,19 @@ func (e *enc) symlink(t string) {
 	e.WriteByte(0)
 }
 func (e *enc) device() { e.u64(32, desync.CaFormatDevice, 1, 3) }
+func (e *enc) xattr(k, v string) {
+	e.u64(uint64(16+len(k)+1+len(v)), desync.CaFormatXAttr)
+	e.WriteString(k)
+	e.WriteByte(0)
+	e.WriteString(v)
+}
+
+// maybeXattr puts extended attributes on about every third entry (trusted.* can be set on symlinks and devices too).
+func (e *enc) maybeXattr(rng *rand.Rand) {
+	if rng.Intn(3) == 0 {
+		e.xattr([]string{"trusted.c18", "trusted.c18", "user.c18", "security.c18"}[rng.Intn(4)], "planted")
+	}
+}
 func (e *enc) goodbye() {
 	e.u64(16+24, desync.CaFormatGoodbye, 0, 40, desync.CaFormatGoodbyeTailMarker)
 }
@@ -121,6 +134,7 @@ func (e *enc) node(kind string, rng *rand.Rand) {
 	switch kind {
 	case "file":
 		e.entry(mFile)
+		e.maybeXattr(rng)
 		e.payload([]byte("hostile payload\n"))
 	case "dir":
 		e.entry(mDir)
@@ -130,12 +144,15 @@ func (e *enc) node(kind string, rng *rand.Rand) {
 		e.goodbye()
 	case "emptydir":
 		e.entry(mDir | 0700)
+		e.maybeXattr(rng)
 		e.goodbye()
 	case "symlink":
 		e.entry(mLnk)
-		e.symlink("/outside")
+		e.maybeXattr(rng)
+		e.symlink([]string{"/outside", "/outside", "/outside/sentinel", "/outside/dev13", "../../../outside/sub"}[rng.Intn(5)])
 	case "device":
 		e.entry(mChr)
+		e.maybeXattr(rng)
 		e.device()
 	}
 }
@@ -289,7 +306,7 @@ func build(rng *rand.Rand) ([]byte, string) {
 		}
 		tag += "|" + kind
 	case "symlink-then-dir", "symlink-then-file", "symlink-then-device":
-		target := []string{"/outside", "../../../outside", "/outside/sentinel", "/"}[rng.Intn(4)]
+		target := []string{"/outside", "../../../outside", "/outside/sentinel", "/", "/outside/dev13", "../../../outside/dev13"}[rng.Intn(6)]
 		e.filename("a")
 		e.entry(mLnk)
 		e.symlink(target)
@@ -324,7 +341,7 @@ func build(rng *rand.Rand) ([]byte, string) {
 		e.goodbye()
 	case "preexisting":
 		// the destination already holds: link-dir -> /outside, link-file -> /outside/sentinel, link-rel -> ../../sentinel-dir
-		ln := []string{"link-dir", "link-file", "link-rel", "link-up"}[rng.Intn(4)]
+		ln := []string{"link-dir", "link-file", "link-rel", "link-up", "link-dev"}[rng.Intn(5)]
 		e.filename(ln)
 		switch rng.Intn(3) {
 		case 0:
@@ -425,6 +442,10 @@ func prepareJail(jail string, dstState string) {
 	os.Symlink("/outside/sentinel", filepath.Join(jail, "p/q/dst/link-file"))
 	os.Symlink("../../sentinel-dir", filepath.Join(jail, "p/q/dst/link-rel"))
 	os.Symlink("..", filepath.Join(jail, "p/q/dst/link-up"))
+	// a device node outside with the very type and numbers the hostile device entries carry, and a link to it
+	syscall.Mknod(filepath.Join(jail, "outside/dev13"), syscall.S_IFCHR|0666, 1<<8|3)
+	os.Chmod(filepath.Join(jail, "outside/dev13"), 0666)
+	os.Symlink("/outside/dev13", filepath.Join(jail, "p/q/dst/link-dev"))
 	// fixed mtimes everywhere outside the destination
 	t := time.Unix(1500000000, 0)
 	filepath.Walk(jail, func(p string, info os.FileInfo, err error) error {
